@@ -207,6 +207,11 @@ def _record_fault(job):
                 fault["scan"], fault["scan_raised"] = scan, 0
             except BaseException:
                 fault["scan"], fault["scan_raised"] = [], 1
+            # what the file holds right now (the object's storage as far as anybody else can tell)
+            was = rec.enabled
+            rec.enabled = False
+            fault["file_now"] = d.decode_bytes(rec.db_bytes() or b"")
+            rec.enabled = was
             # the index right after the fault: if it claims to be valid it must mirror the object's own storage
             fault["valid"] = d.valid()
             fault["ix"] = d.index_obs(fault["scan"], []) if not fault["scan_raised"] else {"n": 0, "q": [], "live": [], "fresh": []}
